@@ -6,6 +6,7 @@ package verifapi
 
 import (
 	"encoding/json"
+	"runtime"
 	"fmt"
 	"os"
 )
@@ -116,8 +117,12 @@ func Bound(name string, n int) {}
 // Sample records a sample description for the evidence.
 func Sample(s string) {}
 
-// Procs sets the value runtime.GOMAXPROCS(0) returns under the engine (no-op natively).
-func Procs(n int) {}
+// Procs sets the value runtime.GOMAXPROCS(0) returns (under the engine: possibly symbolic; natively: for real).
+func Procs(n int) {
+	if n >= 1 {
+		runtime.GOMAXPROCS(n)
+	}
+}
 
 // RunReplay runs f, reporting whether an assertion failed or a panic occurred.
 func RunReplay(f func()) (violated bool, what string) {
